@@ -71,6 +71,7 @@ type Node struct {
 	Int      int64
 	Str      string
 	Dict     bool
+	Raw      bool // EStr: written between quotes as it is (valid UTF-8 without quotes, backslashes or line breaks)
 	Kids     []*Node
 	Body     []*Node
 	Else     []*Node
@@ -480,7 +481,11 @@ func (r *renderer) expr1(e *Node) {
 		}
 		r.w(fmt.Sprint(e.Int))
 	case EStr:
-		r.w(quote(e.Str))
+		if e.Raw {
+			r.w("\"" + e.Str + "\"")
+		} else {
+			r.w(quote(e.Str))
+		}
 	case EName:
 		e.OpPos = e.Start
 		r.w(e.Name)
